@@ -41,6 +41,8 @@ ASSUMPTIONS = [
     'the observed session is judged against ClientAuthenticator.preference as the tree under test declares it '
     '(handed to the oracle with each case); that the model uses the same list is the proof obligation C07_tables',
     'loseConnection is recorded once (byte-wise feeding of an over-long line calls it once per further byte)',
+    'keyring directory states (mode with group/other bits, foreign owner - chown needs euid 0, otherwise a mode with '
+    'other bits stands in -, missing): the client can look nothing up; model and oracle are handed the empty keyring',
     'the reference server of the liveness runs uses fixed GUID, cookie context/id/challenge/cookie; its cookie '
     'is present in the client\'s keyring (the meaning of "accepts DBUS_COOKIE_SHA1" for this user)',
 ]
@@ -56,6 +58,11 @@ SIGNATURES = {
     8: 'begin-without-ok-or-before-fd-answer',
     9: 'mechanisms-not-offered-in-preference-order-once',
 }
+
+# state of $HOME/.dbus-keyrings (optional sixth element of an open-loop case): a directory the client must not
+# use (accessible to group / others, owned by somebody else) or that does not exist means that NO cookie can be
+# looked up - for the model and the oracle that is the empty keyring.
+KDIR_OK, KDIR_OTHERS, KDIR_GROUP, KDIR_FOREIGN, KDIR_MISSING = 0, 1, 2, 3, 4
 
 SRV_CTX = b'org_freedesktop_general'
 SRV_ID = b'42'
@@ -119,22 +126,32 @@ class Env:
         self.real_urandom = os.urandom
         self.seeds = []
 
-    def home_for(self, keyring):
-        key = repr(keyring)
+    def home_for(self, keyring, kdir=0):
+        key = repr((keyring, kdir))
         d = self.dirs.get(key)
         if d is None:
             d = tempfile.mkdtemp(prefix='c07-home-')
             kd = os.path.join(d, '.dbus-keyrings')
-            os.mkdir(kd, 0o700)
-            for ctx, entries in keyring:
-                with open(os.path.join(kd, ctx.decode('ascii')), 'wb') as f:
-                    for i, (cid, cookie) in enumerate(entries):
-                        f.write(cid + b' ' + str(1700000000 + i).encode() + b' ' + cookie + b'\n')
+            if kdir != KDIR_MISSING:
+                os.mkdir(kd, 0o700)
+                for ctx, entries in keyring:
+                    with open(os.path.join(kd, ctx.decode('ascii')), 'wb') as f:
+                        for i, (cid, cookie) in enumerate(entries):
+                            f.write(cid + b' ' + str(1700000000 + i).encode() + b' ' + cookie + b'\n')
+                if kdir == KDIR_OTHERS:
+                    os.chmod(kd, 0o755)
+                elif kdir == KDIR_GROUP:
+                    os.chmod(kd, 0o770)
+                elif kdir == KDIR_FOREIGN:
+                    if os.geteuid() == 0:
+                        os.chown(kd, 54321, -1)
+                    else:
+                        os.chmod(kd, 0o706)
             self.dirs[key] = d
         return d
 
-    def enter(self, user, keyring, seeds):
-        os.environ['HOME'] = self.home_for(keyring)
+    def enter(self, user, keyring, seeds, kdir=0):
+        os.environ['HOME'] = self.home_for(keyring, kdir)
         os.environ['LOGNAME'] = user.decode('ascii')
         self.seeds = list(seeds)
         os.urandom = self.fake_urandom
@@ -325,11 +342,12 @@ def evaluate_open(env, cases, res):
     impl = []
     mlines = []
     for c in cases:
-        unix, user, keyring, seeds, lines = c
+        unix, user, keyring, seeds, lines = c[:5]
+        kdir = c[5] if len(c) > 5 else KDIR_OK
         nonces = [nonce_of(s) for s in seeds]
         runs = []
         for mode in range(4):
-            env.enter(user, keyring, seeds)
+            env.enter(user, keyring, seeds, kdir)
             try:
                 runs.append(run_impl(env, bool(unix), lines, mode))
             finally:
@@ -337,6 +355,8 @@ def evaluate_open(env, cases, res):
         impl.append(runs)
         init, per, _ = runs[0]
         obs = [[tok_sexp(t) for t in init], [[tok_sexp(t) for t in x] for x in per]]
+        if kdir != KDIR_OK:
+            keyring = []                    # unusable directory: nothing can be looked up
         mlines.append('(7 0 %s)' % ' '.join(common.dump(x) for x in
                                            [1 if unix else 0, user, keyring, nonces,
                                             sha_table(keyring, nonces, lines), lines, obs,
@@ -678,6 +698,22 @@ def run(ctx, res):
         kr = rng.choice([KEYRING, KEYRING, [], [[b'ctx1', []]], [[b'ctx1', [[b'7', b'zz'], [b'7', b'c0ffee']]]]])
         sd = [bytes(rng.randrange(256) for _ in range(8)) for _ in range(ln)]
         cases.append([rng.randrange(2), rng.choice(users), kr, sd, [random_line(rng) for _ in range(ln)]])
+    # the keyring directory in a state in which the client must not / cannot use it, under sessions that reach
+    # the cookie challenge (and a few that do not)
+    kd_cases = []
+    for kdir in (KDIR_OTHERS, KDIR_GROUP, KDIR_FOREIGN, KDIR_MISSING):
+        for unix in (0, 1):
+            for pre in ([], [b'REJECTED DBUS_COOKIE_SHA1 ANONYMOUS'], [b'REJECTED DBUS_COOKIE_SHA1'], [b'REJECTED EXTERNAL DBUS_COOKIE_SHA1 ANONYMOUS', b'REJECTED']):
+                for ch in (CH_GOOD, CH_NOID, CH_NOFILE, CH_TWO):
+                    for post in ([], [b'REJECTED ANONYMOUS', b'OK 1234deadbeef'], [b'ERROR', b'REJECTED'], [b'OK 1234deadbeef']):
+                        kd_cases.append([unix, b'vuser', KEYRING, seeds[:4], pre + [ch] + post, kdir])
+    for _ in range(ctx.n(300, 3000)):
+        ln = rng.randrange(1, 10)
+        sd = [bytes(rng.randrange(256) for _ in range(8)) for _ in range(ln)]
+        kd_cases.append([rng.randrange(2), rng.choice(users), KEYRING, sd, [random_line(rng) for _ in range(ln)],
+                         rng.choice((KDIR_OTHERS, KDIR_GROUP, KDIR_FOREIGN, KDIR_MISSING))])
+    cases.extend(kd_cases)
+    res.extra['keyring_directory_unusable_cases'] = len(kd_cases)
     for i in range(0, len(cases), 2000):
         evaluate(ctx, cases[i:i + 2000], res)
     res.sample(cases[0])
